@@ -83,7 +83,8 @@ def tasks(tier):
     flt = os.environ.get("VERIF_C35_FILTER")  # debugging aid only (mutant demonstrations): replay matching sessions
     if flt:
         idx = [i for i, t in enumerate(tr["trails"]) if flt in json.dumps(t["session"])]
-        return out + [("replay-list", tier, idx[j : j + 4]) for j in range(0, len(idx), 4)]
+        out += [("replay-list", tier, idx[j : j + 4]) for j in range(0, len(idx), 4)]
+        return out + [("accept", tier, i) for i in range(len(ORDINARY))]
     out += [("replay", tier, i, min(i + c, n)) for i in range(0, n, c)]
     out += [("accept", tier, i) for i in range(len(ORDINARY))]
     return out
